@@ -492,6 +492,7 @@ class Queue(Greenlet):
             for entry in self.queued:
                 self._pool_spawn('store', self._dequeue, entry[1])
             self.queued = []
+            self.queued_ids = set()
         finally:
             self.queued_lock.release()
 
@@ -513,9 +514,9 @@ class Queue(Greenlet):
             try:
                 now = time.time()
                 self._check_ready(now)
-                self._wait_ready(now)
             finally:
                 self.queued_lock.release()
+            self._wait_ready(now)
 
 
 # vim:et:fdm=marker:sts=4:sw=4:ts=4
